@@ -204,7 +204,7 @@ Theorem back_entry_throw_clears_marker fuel s ev k co rn g rn' g' :
   exec_entry cf contained mc children fuel s ev k rn g = (None, rn', g') ->
   forall kn, nth s (kids rn') None = Some kn -> processing kn = false.
 Proof.
-  intros Hr Hc H. unfold exec_entry in H. rewrite Hc, Hr in H.
+  intros Hr Hc H. unfold exec_entry, exec_entry_gen in H. rewrite Hc, Hr in H.
   apply on_throw_cleanup in H. destruct H as (rn1 & g1 & u & _ & Hcl).
   eapply lift_child_clear_marker; eauto.
 Qed.
